@@ -663,8 +663,8 @@ def rule_stride_siblings(ctx):
         if isinstance(g.node, ast.Lambda) or g.parent is not None:
             continue
         for s in [n for n in ast.walk(g.node) if isinstance(n, ast.Call) and isinstance(n.func, ast.Attribute) and n.func.attr == "submit"]:
-            kws = {k.arg: src_of(k.value) for k in s.keywords if k.arg}
-            if "world_rank" not in kws:
+            kwn = {k.arg: k.value for k in s.keywords if k.arg}
+            if "world_rank" not in kwn:
                 continue
             nl += 1
             comp = None
@@ -672,18 +672,35 @@ def rule_stride_siblings(ctx):
                 if isinstance(n, (ast.ListComp, ast.GeneratorExp)) and any(x is s for x in ast.walk(n)):
                     comp = n.generators[0]
             where = f"{b.relpath}:{g.lineno}"
-            if comp is not None and src_of(comp.iter) == "range(world_size)" and kws.get("world_rank") == src_of(comp.target) and kws.get("world_size") == "world_size":
-                r.ok(f"{g.qualname}[launch]", sample={"launcher": g.qualname, "ranks": "range(world_size)"})
+            # structural: `for <i> in range(<W>)` with world_rank=<i> and world_size=<W> (the same expression)
+            good = False
+            ivar = None
+            if comp is not None and isinstance(comp.target, ast.Name) and isinstance(comp.iter, ast.Call) and dotted(comp.iter.func) == "range" and len(comp.iter.args) == 1:
+                ivar = comp.target.id
+                W = comp.iter.args[0]
+                good = isinstance(kwn["world_rank"], ast.Name) and kwn["world_rank"].id == ivar and "world_size" in kwn and ast.dump(kwn["world_size"]) == ast.dump(W)
+            if good:
+                r.ok(f"{g.qualname}[launch]", sample={"launcher": g.qualname, "ranks": f"range({src_of(comp.iter.args[0])})"})
             else:
                 r.bad(Finding("stride-siblings", g.qualname,
-                              f"launcher does not submit world_rank=i for i in range(world_size) with world_size=world_size (got {kws})",
+                              f"launcher does not submit world_rank=i for i in range(W) with world_size=W (got { {k: src_of(v) for k, v in kwn.items()} })",
                               where=where, operand="launch"))
-            if "out" in kws or any("out_i" in src_of(a) for a in s.args):
-                outs = kws.get("out") or next(src_of(a) for a in s.args if "out_i" in src_of(a))
-                if outs == f"out_i[{src_of(comp.target)}]" if comp is not None else False:
-                    r.ok(f"{g.qualname}[own row]")
-                else:
-                    r.bad(Finding("stride-siblings", g.qualname, f"ranks do not write to their own output row (out={outs})", where=where, operand="row"))
+            # an output buffer indexed per rank: a two-dimensional scratch array `<buf>[<i>]` (allocated with one row per rank)
+            outs = [a for a in list(s.args) + [v for k, v in kwn.items() if k == "out"] if isinstance(a, ast.Subscript) and isinstance(a.value, ast.Name)]
+            rowbufs = set()
+            if comp is not None and isinstance(comp.iter, ast.Call) and comp.iter.args:
+                Wd = ast.dump(comp.iter.args[0])
+                for a_ in ast.walk(g.node):
+                    if isinstance(a_, ast.Assign) and len(a_.targets) == 1 and isinstance(a_.targets[0], ast.Name) and isinstance(a_.value, ast.Call):
+                        shp = next((k.value for k in a_.value.keywords if k.arg == "shape"), None)
+                        if isinstance(shp, ast.Tuple) and shp.elts and ast.dump(shp.elts[0]) == Wd:
+                            rowbufs.add(a_.targets[0].id)
+            for o in outs:
+                if o.value.id in rowbufs:
+                    if isinstance(o.slice, ast.Name) and o.slice.id == ivar:
+                        r.ok(f"{g.qualname}[own row]")
+                    else:
+                        r.bad(Finding("stride-siblings", g.qualname, f"ranks do not write to their own output row (out={src_of(o)})", where=where, operand="row"))
     r.floor(nl, 2, "parallel launchers in builder.py")
     return r
 
